@@ -4,6 +4,7 @@
      rm_K m t x : thread t knows the last write of location x   (Wc x <= C_t[Wt x])
      rm_P m o x : sync object o carries the last write of x     (Wc x <= L_o[Wt x])
    with their transfer through release and acquire events. *)
+From Coq Require Import Relations.
 From Got Require Import Base ListAux Race RaceProofs RaceHB RaceHBProofs.
 Local Open Scope nat_scope.
 
@@ -215,3 +216,26 @@ Proof.
   intros H. unfold hb_wf. apply Forall_forall. intros p Hp. apply in_map_iff in Hp.
   destruct Hp as [e [<- _]]. exact H.
 Qed.
+
+(* ------------------------------------------------------------------ reading a trace *)
+(* publication chain, directly from the relational definitions: w and r are events of one
+   thread, r a release on o; a and d events of another (or the same) thread, a an acquire on o *)
+Lemma rm_hb_chain (tr : hb_trace) w r a d t1 t2 e1 e2 e3 e4 o :
+  w < r -> r < a -> a < d ->
+  nth_error tr w = Some (t1, e1) -> nth_error tr r = Some (t1, e2) ->
+  nth_error tr a = Some (t2, e3) -> nth_error tr d = Some (t2, e4) ->
+  hb_is_rel e2 o -> hb_is_acq e3 o ->
+  hb_hb tr w d.
+Proof.
+  intros H1 H2 H3 Ew Er Ea Ed Hr Ha. unfold hb_hb.
+  apply t_trans with r; [|apply t_trans with a]; apply t_step.
+  - left. split; [exact H1|]. exists t1, e1, e2. split; assumption.
+  - right. split; [exact H2|]. exists t1, e2, t2, e3, o. repeat split; assumption.
+  - left. split; [exact H3|]. exists t2, e3, e4. split; assumption.
+Qed.
+
+Lemma rm_conflict_intro (tr : hb_trace) i j ti tj ei ej x :
+  nth_error tr i = Some (ti, ei) -> nth_error tr j = Some (tj, ej) -> ti <> tj ->
+  hb_is_access ei x -> hb_is_access ej x -> (hb_is_write ei x \/ hb_is_write ej x) ->
+  hb_conflict tr i j.
+Proof. intros. exists ti, ei, tj, ej, x. repeat split; assumption. Qed.
